@@ -185,6 +185,8 @@ def c20_rf21(run):
     rf_mir2c.rf92(run)
     run.min_instances('RF92', 10)
     rf_mir2c.rf93(run)
+    rf_mir2c.rf95(run)
+    run.min_instances('RF95', 6)
     run.min_instances('RF21', 8)
     rf_vocab.rf37(run, 'mir2c', ('MIR_module2c',))
     run.min_instances('RF37', 3)
